@@ -2,14 +2,16 @@ import SqlModel.Pipeline
 import SqlProofs.SplitPartition
 import SqlProps.C01
 import SqlProofs.SplitNonWs
+import SqlProofs.Resplit
 /-!
 # C04 — split() partitions the input and agrees with parse()
 
 Proved here: the statements returned by lexer ∘ splitter (the flat statements both `split()` and `parse()` start from)
 partition the input text — in order, nothing lost or duplicated, only a whitespace-typed tail dropped, no statement empty.
 `split()` and `parse()` share that stage by construction (`FilterStack.run`); the remaining link `str(parse(s)[i]) = text of statement i`
-is grouping's text preservation (C02).  Pieces are non-empty after `strip()` (`pieces_nonempty`).  Not a theorem (sampled by the oracle): the
-re-split clause, which the unchanged code violates for context-sensitive lexemes (known findings KF-C04-1/2).
+is grouping's text preservation (C02).  Pieces are non-empty after `strip()` (`pieces_nonempty`).  The re-split clause is proved at token level
+(`resplit_tokens`) and, for texts, under the explicit lexical hypothesis `LexStable` (`resplit_text`); the unchanged code violates that
+hypothesis for context-sensitive lexemes (known findings KF-C04-1/2), which is exactly where re-splitting a piece can differ.
 -/
 namespace Sql.C04
 
@@ -59,5 +61,31 @@ character that is not `str.isspace` -/
 theorem nonws_token_starts_nonspace (s : Array Cp) (ts : List Tok) (h : lex defaultCfg s = .ok ts) :
     ∀ t ∈ ts, t.tt.isIn T.Whitespace = false → ∃ c rest, t.val = c :: rest ∧ isSpace c = false :=
   lex_nonws_first s ts h
+
+/-- **re-split, token level.** Splitting the tokens of a returned statement again returns that statement alone — for every token stream
+and every configuration.  (The statement was started from the reset state; re-running it repeats the same transitions, no yield happens
+inside it, and it contains a token that is not of a Whitespace type, so the final flush emits it.) -/
+theorem resplit_tokens (cfg : SplitCfg) (ts : List Tok) (sts : List (List Tok)) (h : splitProcess cfg ts = .ok sts) :
+    ∀ st ∈ sts, splitProcess cfg st = .ok [st] :=
+  Sql.resplit_tokens cfg ts sts h
+
+/-- … also after removing the whitespace-typed tokens at both ends of the statement (`trimWs`) -/
+theorem resplit_tokens_trimmed (cfg : SplitCfg) (ts : List Tok) (sts : List (List Tok)) (h : splitProcess cfg ts = .ok sts) :
+    ∀ st ∈ sts, splitProcess cfg (trimWs st) = .ok [trimWs st] :=
+  Sql.resplit_tokens_trim cfg ts sts h
+
+/-- **re-split, text level, under `LexStable`.** `LexStable st` says: lexing the stripped text of the statement, on its own, gives back the
+statement's tokens minus the whitespace-typed tokens at both ends (`lex (strip(text st)) = trimWs st`) — i.e. no token of the piece
+depended on text outside the piece, and stripping removed only whole whitespace tokens.  Under that hypothesis `split(piece) = [piece]`. -/
+theorem resplit_text (s : Array Cp) (sts : List (List Tok)) (h : lexSplit s = .ok sts) (st : List Tok) (hst : st ∈ sts)
+    (hstable : LexStable st) :
+    split (pyStrip (stmtText st)).toArray = .ok [pyStrip (stmtText st)] :=
+  Sql.resplit_text s sts h st hst hstable
+
+/-- the hypothesis is satisfiable: both statements of `select 1; select 'a;b' ` are `LexStable` -/
+example :
+    (((lexSplit #[115, 101, 108, 101, 99, 116, 32, 49, 59, 32, 115, 101, 108, 101, 99, 116, 32, 39, 97, 59, 98, 39, 32]).toOption.getD []).map
+      fun st => decide ((lex defaultCfg (pyStrip (stmtText st)).toArray).toOption = some (trimWs st))) = [true, true] := by
+  decide +kernel
 
 end Sql.C04
